@@ -143,6 +143,17 @@ class UDPMessageDeserializer:
         # Already parsed if we don't have a raw body
         if not raw_body:
             return
+        try:
+            self._parse_message_body(msg, raw_body)
+        except:
+            # Put the message back how we found it so that it can still be
+            # passed through untouched even though we can't make sense of it.
+            msg.blocks = {}
+            msg.raw_body = raw_body
+            msg.deserializer = weakref.ref(self)
+            raise
+
+    def _parse_message_body(self, msg: Message, raw_body: bytes):
         msg.raw_body = None
         msg.deserializer = None
 
